@@ -116,6 +116,12 @@ func (r *Runner) checkProperty(id string) int {
 	var undischarged []string
 	var toolErrs []string
 	var samples []any
+	var slowest struct {
+		secs    float64
+		name    string
+		retried bool
+	}
+	var slow []string
 	var funcs []map[string]any
 	assumptions := map[string]bool{}
 	callees := map[string]bool{}
@@ -151,6 +157,12 @@ func (r *Runner) checkProperty(id string) int {
 				nDis++
 				o.Status = "discharged"
 				byBackend[o.Verdict.Solver]++
+				if o.Verdict.Seconds > slowest.secs {
+					slowest.secs, slowest.name, slowest.retried = o.Verdict.Seconds, o.Name, o.Verdict.Retried
+				}
+				if o.Verdict.Seconds > 4 || o.Verdict.Retried {
+					slow = append(slow, fmt.Sprintf("%s %.1fs retried=%v", o.Name, o.Verdict.Seconds, o.Verdict.Retried))
+				}
 				if len(samples) < 12 {
 					samples = append(samples, map[string]any{"obligation": o.Name, "at": o.Pos, "solver": o.Verdict.Solver,
 						"seconds": round3(o.Verdict.Seconds), "smt_bytes": len(o.query("", false))})
@@ -278,6 +290,15 @@ func (r *Runner) checkProperty(id string) int {
 		"not_decided":              r.eng.notDecided(id),
 		"contract_files":           relFiles(r.eng.db.Files),
 		"query_timeout_s":          r.queryTimeout(),
+		"slowest_obligation":       map[string]any{"obligation": slowest.name, "seconds": round3(slowest.secs), "second_pass": slowest.retried},
+	}
+	if len(slow) > 0 {
+		// obligations close to the time budget are the ones that may fail for no semantic reason on a busy machine
+		sort.Strings(slow)
+		cov["slow_obligations"] = slow
+		for _, sl := range slow {
+			fmt.Fprintln(os.Stderr, "slow:", sl)
+		}
 	}
 	if st := r.standins(id); st != nil {
 		cov["bounded_standins"] = st.report
